@@ -2,6 +2,7 @@ import CC.Lemmas.Prims
 import CC.Lemmas.Refresh
 import CC.Lemmas.Rev
 import CC.Lemmas.Rotation
+import CC.Lemmas.Contig
 /-! # C05 — revocation takes effect: pruned and deleted secrets leave refreshed keys -/
 
 namespace CC.Props.C05
@@ -112,5 +113,16 @@ theorem refresh_adds_no_right (w : World) (hw : Reachable w) (usk : Usk) (keep :
 /-- non-vacuity of `refresh_keep_sub_master`: master chain [9,5] after pruning [9,5,3]; user held [5,3] -/
 example : refreshChain [⟨9, false⟩, ⟨5, false⟩] [⟨5, false⟩, ⟨3, false⟩] = some [⟨9, false⟩, ⟨5, false⟩] := by
   decide
+
+/-- **Deletion takes effect, over every history.** In any reachable world in which no attribute
+carries the identifier `i` any more (its attribute, or its whole dimension, was deleted), a
+successful `update_msk` leaves no right involving `i` in the master key; hence a key refreshed
+afterwards with either flag holds no such right (`refresh_adds_no_right`,
+`refreshed_key_cannot_use_removed`), and nothing can be encapsulated for it. -/
+theorem deleted_attribute_leaves_master_key (w : World) (hw : Reachable w) (i : Nat)
+    (hdead : ¬ w.msk.structure_.live i)
+    (hok : (updateMsk w.msk w.msk.structure_.omega w.rng).1 = .ok ()) (ids : List Nat) (hi : i ∈ ids) :
+    (w.step .update).msk.secrets.lookup (Right.fromPoint ids) = none :=
+  update_removes_dead w hw i hdead hok ids hi
 
 end CC.Props.C05
